@@ -640,17 +640,23 @@ private:
 
 		// geometric range of the posit<16,2>
 		// maxpos        = 72,057,594,037,927,936   0b0111'1111'1111'1111
-		// maxpos / 2    = 36,028,797,018,963,968   0b0111'1111'1111'1110
-		// maxpos / 3/8  = 27,021,597,764,222,976   0b0111'1111'1111'1101
-		// maxpos / 4    = 18,014,398,509,481,984   0b0111'1111'1111'1100
+		// maxpos / 16   =  4,503,599,627,370,496   0b0111'1111'1111'1110
+		// maxpos / 64   =  1,125,899,906,842,624   0b0111'1111'1111'1101
+		// maxpos / 256  =    281,474,976,710,656   0b0111'1111'1111'1100
 		bool sign = (rhs < 0);
 		uint64_t v = sign ? -rhs : rhs; // project to positve side of the projective reals
 		uint16_t raw = 0;
-		if (v > 0x0080'0000'0000'0000) { // v > 36,028,797,018,963,968
+		if (v > 0x0040'0000'0000'0000) { // v > 2^54: the exponent bits 0b10 that do not fit are the tie, which goes to the even encoding
 			raw = 0x7FFFu;  // +-maxpos
 		}
-		else if (v > 0x005F'FFFF'FFFF'FFFF) { // 27,021,597,764,222,976 < v < 36,028,797,018,963,968
-			raw = 0x7FFEu;  // 0.5 of maxpos is the final value
+		else if (v >= 0x0008'0000'0000'0000) { // 2^51 <= v <= 2^54
+			raw = 0x7FFEu;
+		}
+		else if (v > 0x0002'0000'0000'0000) { // 2^49 < v < 2^51
+			raw = 0x7FFDu;
+		}
+		else if (v >= 0x0001'0000'0000'0000) { // 2^48 <= v <= 2^49
+			raw = 0x7FFCu;
 		}
 		else if (v == 1) {
 			raw = 0x4000u;
